@@ -63,6 +63,10 @@ type Machine struct {
 	funcDecl func(fn *types.Func) *ast.FuncDecl
 	// onMethod is called for a method call on the tracked object; it returns true if it handled the call.
 	onMethod func(m *Machine, fn *types.Func, call *ast.CallExpr, args []val) bool
+	// resolve, if set, supplies values for expressions (e.g. capability flags from an assignment).
+	resolve func(e ast.Expr) (val, bool)
+	// onCall, if set, intercepts calls of any statically resolved function.
+	onCall func(m *Machine, fn *types.Func, call *ast.CallExpr, args []val) (val, bool)
 }
 
 type frame struct {
@@ -345,7 +349,7 @@ func (m *Machine) fieldOfObj(fr *frame, e ast.Expr) (*types.Var, bool) {
 
 func (m *Machine) isObjExpr(fr *frame, e ast.Expr) bool {
 	t := m.info.TypeOf(e)
-	return t != nil && types.Identical(t, m.objType)
+	return t != nil && m.objType != nil && types.Identical(t, m.objType)
 }
 
 func (m *Machine) assign(fr *frame, lhs ast.Expr, v val, at ast.Node) {
@@ -432,6 +436,11 @@ func (m *Machine) expr(fr *frame, e ast.Expr) val {
 		}
 		return val{}
 	case *ast.SelectorExpr:
+		if m.resolve != nil {
+			if v, ok := m.resolve(e); ok {
+				return v
+			}
+		}
 		if f, ok := m.fieldOfObj(fr, e); ok {
 			if m.tracked(f) {
 				if v, ok := m.fields[f.Name()]; ok {
@@ -563,6 +572,11 @@ func (m *Machine) call(fr *frame, call *ast.CallExpr) val {
 }
 
 func (m *Machine) invoke(fr *frame, fn *types.Func, call *ast.CallExpr, args []val, how string) val {
+	if m.onCall != nil {
+		if v, ok := m.onCall(m, fn, call, args); ok {
+			return v
+		}
+	}
 	sig := fn.Type().(*types.Signature)
 	if sig.Recv() != nil && types.Identical(sig.Recv().Type(), m.objType) {
 		if m.onMethod != nil && m.onMethod(m, fn, call, args) {
